@@ -52,7 +52,7 @@ func (e Encoder) AppendStringers(dst []byte, vals []fmt.Stringer) []byte {
 // byte array.
 func (e Encoder) AppendStringer(dst []byte, val fmt.Stringer) []byte {
 	if val == nil {
-		return e.AppendNil(dst)
+		return e.AppendInterface(dst, nil)
 	}
 	return e.AppendString(dst, val.String())
 }
